@@ -405,6 +405,7 @@ class CtlWriter:
 
             if SUBBLOCKS in self.elements:
                 sub_blocks = self.get_sub_blocks(instructions)
+                m_end = -1
                 for j, (ctl, sb_instructions) in enumerate(sub_blocks):
                     has_bases = False
                     for instruction in sb_instructions:
@@ -421,6 +422,9 @@ class CtlWriter:
                                 index += 1
                             if index < len(sub_blocks):
                                 length = sub_blocks[index][1][0].address - first_instruction.address
+                                # The sub-block that follows must be written,
+                                # so that the comment ends where it does
+                                m_end = index
                             elif k + 1 < len(sections):
                                 length = sections[k + 1][1][0].address - first_instruction.address
                             else:
@@ -438,8 +442,8 @@ class CtlWriter:
                                 if comment.rowspan > 1 and not comment.text.replace('.', ''):
                                     comment_text = '.' + comment_text
                                 write_comment = comment_text != ''
-                        if write_comment or ctl.lower() != entry_ctl or ctl != 'C' or has_bases:
-                            self.write_sub_block(ctl, entry_ctl, comment_text, sb_instructions, length)
+                        if write_comment or ctl.lower() != entry_ctl or ctl != 'C' or has_bases or j == m_end:
+                            self.write_sub_block(ctl, entry_ctl, comment_text, sb_instructions, length, j == m_end)
 
     def addr_str(self, address):
         return self.address_fmt.format(address)
@@ -486,7 +490,7 @@ class CtlWriter:
                 i += 1
         return sub_blocks
 
-    def write_sub_block(self, ctl, entry_ctl, comment, instructions, lengths):
+    def write_sub_block(self, ctl, entry_ctl, comment, instructions, lengths, keep_start=False):
         length = 0
         sublengths = []
         address = instructions[0].address
@@ -508,7 +512,7 @@ class CtlWriter:
             if not any(comment) and len(sublengths) > 1 and entry_ctl == 'c':
                 if not sublengths[-1][0]:
                     length -= sublengths.pop()[1]
-                if not sublengths[0][0]:
+                if not sublengths[0][0] and not keep_start:
                     sublength = sublengths.pop(0)[1]
                     length -= sublength
                     address += sublength
